@@ -338,7 +338,12 @@ func (w *walk) submit(raw []byte, kind string) bool {
 	w.focus = n
 	tip0 := e.k.Ch.LastBlock()
 	r.pending(pendingDoc{Kind: "branch-walk:" + kind, Opts: e.opts, Candidate: hex.EncodeToString(raw), Vouched: w.vouchedIDs(), Walk: true})
+	e.lastDoc = func() replayDoc { return w.doc(kind) }
+	setDoc(e.lastDoc) // watchdog.go
 	res := e.submit(raw)
+	if res.Panic != "" {
+		e.sawPanic(res.Panic)
+	}
 	tip1 := e.k.Ch.LastBlock()
 	e.nblocks++
 	verdict := "valid"
